@@ -322,7 +322,7 @@ def apply_rubber_band(molecule, selector,
     if np.any(np.isnan(coordinates)):
         LOGGER.warning("Found nan coordinates in molecule {}. "
                        "Will not generate an EN for it. ",
-                       molecule.moltype,
+                       getattr(molecule, 'moltype', molecule.meta.get('moltype')),
                        type='unmapped-atom')
         return
 
